@@ -13,11 +13,12 @@ THEOREM_FILE = "Props/C20.v"
 HARNESS_ARGS = ["sim"]
 PER_SHARD = 4
 LEVEL_TEXT = ("Coq theorems about the model of the daemon's querier-side state (cache buckets, subtype map, timer heap, "
-              "retransmissions): after the searches are stopped and every TTL and schedule time has passed the cache counters "
-              "are 0 and only the interface-check timer is left (except the subtype map, finding); under the acceptance "
-              "rule the property asks for (need at arrival) every cached record is a needed, delivered, unexpired record; "
-              "the code's rule (message-level is_for_us) is refuted with witnesses; the model predicts get_metrics exactly "
-              "on the real daemon in the simulated world and chk_C20 runs as monitor on the implementation's samples")
+              "retransmissions): an iteration after every TTL has passed leaves the five record counters at 0 under any "
+              "calls; the timers left are exactly those not yet due plus the interface check; if the code's acceptance rule "
+              "never stored a record that no active search needed on arrival, it behaved exactly as the need rule and the "
+              "cache part of chk_C20 holds; the literal statements (subtype map, timers, bounded-by-need) are refuted on the "
+              "model by computed witnesses that replay on the real daemon; the model predicts get_metrics exactly on the "
+              "real daemon in the simulated world and chk_C20 runs as monitor on the implementation's samples")
 TECHNIQUE = ("machine-checked proof in Coq (invariants of the cache/timer model over arbitrary histories, refutations by "
              "computed witnesses) + model/implementation correspondence on get_metrics of the simulated daemon")
 LEVELS = "K6 (real ServiceDaemon thread under verif-hooks; observation = get_metrics samples over virtual time)"
@@ -36,8 +37,11 @@ TRUSTED = [
     "what get_metrics does not report (pending_resolves / resolved sets, empty map keys) is modelled but not observed",
 ]
 PARTIAL = ("no registrations (registry timers / probes are C07/C12), no verify(), static interface table, event channels "
-           "never full; the need-based bound is proved for the cache counters; for the timer heap the true bound (by "
-           "deliveries within TTL and schedule pushes) is stated, the need-based one is refuted")
+           "never full; need-based bound: proved in the form 'no unneeded record stored => code run = need run => cache "
+           "counters within need' plus the step lemma that the need rule stores nothing unneeded; a counting bound of the "
+           "need run by the number of needed deliveries within TTL is not proved; timers: exact frame of a quiet iteration "
+           "proved, the need-proportional bound is refuted (finding), a traffic x TTL bound is not proved; pending_resolves / "
+           "resolved / empty map keys are modelled (C20_hidden_growth_model) but not observable through get_metrics")
 
 T0 = L.T0
 TYPES = ["_http._tcp.local.", "_ipp._tcp.local.", "_x._udp.local."]
